@@ -464,6 +464,20 @@ def wrappers_for_c14(ck, prog, seed, key='wrapper-error-sticks'):
             if o.startswith('ok') and (f.get(who) or '').startswith('now_ok') and f.get(who) != want:
                 bad.append('both clients opened on a consistent segment, %s; the second call (realtime 1700000000 s, record aged 1 s at 1000 ppb) must return %s; the %s returns %s: the interval depends on what an earlier call on the same object returned'
                            % (what, want[7:], 'C library' if who == 'c' else 'Rust client', (f.get(who) or '')[7:]))
+    # failures: for the same file both libraries report the same kind (numbered as clockbound.h numbers it: the harness reads the C
+    # library's kind as the integer a C program sees) and errno, and it is the documented kind
+    want_kind = {'missing': 'open_err:kind=1:errno=2', 'short': 'open_err:kind=2:errno=0', 'zerogen': 'open_err:kind=2:errno=0', 'badmagic': 'open_err:kind=2:errno=0', 'smallseg': 'open_err:kind=3:errno=0',
+                 'rec 100 0 1100 0 5000 2000000000 1 101 0 1700000000 0': 'now_err:kind=3:errno=0', 'rec 200 0 1200 0 5000 1000 1 101 0 1700000000 0': 'now_err:kind=4:errno=0'}
+    for s3, wk in want_kind.items():
+        o = rp.ask('abi ' + s3)
+        res['abi ' + s3] = o
+        ck.cov['evaluations'] += 1
+        f = dict(x.split('=', 1) for x in o.split()[1:] if '=' in x)
+        for who in ('rust', 'c'):
+            if o.startswith('ok') and f.get(who) is not None and f.get(who) != wk:
+                bad.append('%s on %s: the %s reports %s, documented (clockbound.h numbering: SYSCALL 1, SEGMENT_NOT_INITIALIZED 2, SEGMENT_MALFORMED 3, CAUSALITY_BREACH 4): %s'
+                           % ('clockbound_open / new_with_path' if wk.startswith('open') else 'the call for the time', {'rec 100 0 1100 0 5000 2000000000 1 101 0 1700000000 0': 'a record with a drift of 2e9 ppb', 'rec 200 0 1200 0 5000 1000 1 101 0 1700000000 0': 'a record whose as_of is 99 s ahead of the monotonic clock'}.get(s3, 'a "%s" file' % s3),
+                              'C library' if who == 'c' else 'Rust client', f.get(who), wk))
     rp.close()
     ck.cov['native_wrapper_runs'] = res
     if bad:
